@@ -9,7 +9,8 @@
  * Functions under contract (real, unmodified bodies from /repo/src/profiler/dag_recorder_inl.h, via dag_recorder.c):
  *   dr_task_active_node, dr_task_last_node, dr_push_back_section, dr_task_ensure_section, dr_begin_section__,
  *   dr_enter_wait_tasks__, dr_return_from_wait_tasks__, dr_enter_create_task__, dr_return_from_create_task__,
- *   dr_start_task__, dr_end_task__   (with the real dr_dag_node_list_push_back / dr_dag_node_alloc / dr_end_interval_ /
+ *   dr_start_task__, dr_end_task__, dr_enter_other__, dr_return_from_other__, dr_enter_create_cilk_proc_task__,
+ *   dr_start_cilk_proc__   (with the real dr_dag_node_list_push_back / dr_dag_node_alloc / dr_end_interval_ /
  *   dr_get_worker_specific_state under them)
  *
  * Memory: a one-level-down description of the stack, so the nesting depth is symbolic:
@@ -291,5 +292,77 @@ void h_end_task(void) {
   __CPROVER_assert(TK.subgraphs->tail == e && e->next == 0 && e->info.kind == dr_dag_node_kind_end_task && TK.subgraphs->n == g_n + 1,
                    "end_task: the end interval is appended as the last subgraph of the task itself");
   __CPROVER_assert(g_sum_calls == 1 && TK.active_section == &TK, "end_task: exactly the task is summarised; no section is open");
+  VERIF_CANARY();
+}
+
+/* ------------------------------------------------------------------ other intervals */
+void h_enter_other(void) {
+  setup_recorder();
+  build_stack(1);
+  dr_dag_node * r = dr_enter_other__("f", 7, 0);
+  dr_dag_node * o = &NEW0;
+  __CPROVER_assert(r == &TK && WSS[0].task == &TK, "enter_other: returns the running task");
+  __CPROVER_assert(g_act->subgraphs->tail == o && o->next == 0 && o->info.kind == dr_dag_node_kind_other && g_act->subgraphs->n == g_n + 1 &&
+                   (g_n == 0 ? g_act->subgraphs->head == o : (AL.next == o && g_act->subgraphs->head == (g_n == 1 ? &AL : &AH))),
+                   "enter_other: the other interval is appended to the ACTIVE node (the task itself when no section is open, else the innermost open section)");
+  __CPROVER_assert(TK.active_section == g_act, "enter_other: no section is opened or closed");
+  __CPROVER_assert(FLP->head == &NEW1, "enter_other: exactly one node (the interval) is allocated");
+  __CPROVER_assert(g_act == &TK || (TK.subgraphs->n == 1 && TK.subgraphs->tail == (g_par == &TK ? &SA : g_gpar == &TK ? &SP : &SG)),
+                   "enter_other: the task's own list is untouched when a section is open");
+  __CPROVER_assert(o->info.t_1 == o->info.end.t - TK.info.start.t && o->info.t_inf == o->info.t_1 && o->info.logical_node_counts[dr_dag_node_kind_other] == 1,
+                   "enter_other: the interval recorded is the one the task has been running since its last start");
+  ASSERT_STACK_FRAME("enter_other");
+  VERIF_CANARY();
+}
+
+void h_return_from_other(void) {
+  setup_recorder();
+  build_stack(1);
+  __CPROVER_assume(g_n >= 1 && (int)AL.info.kind == dr_dag_node_kind_other && AL.info.end.t > 0);
+  dr_return_from_other__(&TK, "f", 8, 0);
+  __CPROVER_assert(TK.active_section == g_act && g_act->subgraphs->n == g_n && g_act->subgraphs->tail == &AL && AL.next == 0 && FLP->head == &NEW0,
+                   "return_from_other: the open-section stack and the active node's list are unchanged, nothing is allocated");
+  __CPROVER_assert(WSS[0].task == &TK && (int)TK.info.in_edge_kind == dr_dag_edge_kind_other_cont && TK.info.start.worker == 0 &&
+                   TK.info.first_ready_t == AL.info.end.t,
+                   "return_from_other: the task continues on this worker through an other_cont edge, ready when the other interval ended");
+  ASSERT_STACK_FRAME("return_from_other");
+  VERIF_CANARY();
+}
+
+/* ------------------------------------------------------------------ Cilk flavour: the per-worker "I was spawned" slot wss->parent */
+void h_enter_create_cilk(void) {
+  setup_recorder();
+  build_stack(1);
+  dr_dag_node * r = dr_enter_create_cilk_proc_task__("f", 9, 0);
+  dr_dag_node * sec = (g_act == &TK) ? &NEW0 : &SA;
+  dr_dag_node * ct = (g_act == &TK) ? &NEW1 : &NEW0;
+  __CPROVER_assert(r == &TK && WSS[0].task == &TK, "enter_create_cilk: returns the spawning task, which stays the worker's current task");
+  __CPROVER_assert(WSS[0].parent == ct && ct->info.kind == dr_dag_node_kind_create_task && ct->child == 0,
+                   "enter_create_cilk: the slot holds the create interval (no child yet)");
+  __CPROVER_assert(sec->subgraphs->tail == ct && ct->next == 0 && TK.active_section == sec && sec->parent_section == (g_act == &TK ? &TK : g_par),
+                   "enter_create_cilk: the create interval is the last subgraph of the innermost open section, which stays active");
+  ASSERT_STACK_FRAME("enter_create_cilk");
+  VERIF_CANARY();
+}
+
+void h_start_cilk_proc(void) {
+  setup_recorder();
+  build_stack(0);
+  __CPROVER_assume(g_n >= 1 && (int)AL.info.kind == dr_dag_node_kind_create_task && AL.info.end.t > 0);
+  AL.child = 0;
+  _Bool spawned = nondet_bool();
+  WSS[0].parent = spawned ? &AL : 0;
+  int r = dr_start_cilk_proc__("f", 10, 0);
+  __CPROVER_assert(WSS[0].parent == 0, "start_cilk_proc: the slot is empty afterwards (a later ordinary call starts nothing)");
+  if (spawned) {
+    __CPROVER_assert(r == 1, "start_cilk_proc: a spawned procedure reports 1");
+    __CPROVER_assert(WSS[0].task == &NEW0 && NEW0.info.kind == dr_dag_node_kind_task && NEW0.active_section == &NEW0 && NEW0.subgraphs->n == 0 &&
+                     AL.child == &NEW0 && FLP->head == &NEW1,
+                     "start_cilk_proc: exactly one child task of the create interval in the slot is started");
+  } else {
+    __CPROVER_assert(r == 0, "start_cilk_proc: an ordinary call reports 0");
+    __CPROVER_assert(WSS[0].task == &TK && FLP->head == &NEW0 && AL.child == 0, "start_cilk_proc: an ordinary call starts nothing and changes nothing");
+  }
+  __CPROVER_assert(TK.active_section == &SA && SA.subgraphs->tail == &AL && SA.parent_section == g_par, "start_cilk_proc: the spawning task's stack is untouched");
   VERIF_CANARY();
 }
